@@ -114,6 +114,7 @@ def _command(ctx, w, csi, tgt):
     if cs not in TABLE:
         ctx.probe("undefined-cs")
     before = dict(w.model)
+    ctx.op("master command", cs, ("own", "broadcast", "other")[tgt], tid)
     _, exc = call(master.send_command, cs)
     what = "command %d to %s" % (cs, ("own id %d" % tid, "all nodes", "other id %d" % tid)[tgt])
     if exc is not None:
@@ -149,6 +150,8 @@ def _assign(ctx, w):
     else:
         name = BAD_NAMES[ctx.choice(len(BAD_NAMES), "bad")]
         ctx.probe("invalid-name")
+
+    ctx.op(("master", "slave")[side] + " state assignment", nid, name)
 
     def do():
         obj.state = name
@@ -266,6 +269,7 @@ def _wait(ctx, w):
     for at, byte, src in plan:
         ctx.at(t0 + at, (lambda b=byte, s=src: w.raw.send(0x700 + s, bytes([b]))))
     fn = master.wait_for_bootup if boot else master.wait_for_heartbeat
+    ctx.op("wait_for_bootup" if boot else "wait_for_heartbeat", timeout, [(a // 1000, b, s) for a, b, s in plan])
     res, exc = call(fn, timeout)
     took = ctx.now - t0
     lat = 2 * MS
